@@ -41,6 +41,11 @@ func (f *Producer) OpenDB(name string) (kvdb.Store, error) {
 		DropFn: func() {
 			f.mu.Lock()
 			delete(f.dbs, name)
+			// dropping a DB changes the flushed state, so the other DBs must not
+			// keep reporting the previous flush ID as a clean state
+			for _, other := range f.dbs {
+				_ = other.modified()
+			}
 			f.mu.Unlock()
 			_ = db.Close()
 			db.Drop()
